@@ -49,7 +49,8 @@ def _emit_fn(gen, root, fn, canary_false=False):
     src = _source(root, fn.file)
     d = src.find_fn(fn.scope, fn.name)
     fired = []
-    sig = X.rewrite_sig(d['sig'], fired, fn.ret_name)
+    r18 = 'R18' in getattr(fn, 'rules', ())
+    sig = X.rewrite_sig(X.r18_sig(d['sig'], fired) if r18 else d['sig'], fired, fn.ret_name)
     for (a, b) in fn.sig_subst:
         if a not in sig:
             if fn.lenient_sig:
@@ -66,6 +67,8 @@ def _emit_fn(gen, root, fn, canary_false=False):
         fired.append('R9 body not extracted (external_body, contract assumed)')
     else:
         body = X.rewrite_body(body_orig, fired)
+        if r18:
+            body = X.r18_await(body, fired)
         for (a, b) in fn.body_subst:
             if body.count(a) != 1:
                 raise X.ExtractError('ANCHOR-LOST body_subst in %s::%s: %r (%d)' % (fn.file, fn.name, a, body.count(a)))
@@ -73,9 +76,12 @@ def _emit_fn(gen, root, fn, canary_false=False):
             fired.append('SUBST %r -> %r' % (a[:50], b[:50]))
         for (rx, rep, why) in fn.body_resub:
             n = len(re.findall(rx, body, flags=re.S))
-            if n != 1:
+            every = why.startswith('every:')          # a syntactic rule applied to every occurrence (>= 0) instead of exactly one site
+            if n != 1 and not every:
                 raise X.ExtractError('ANCHOR-LOST body_resub in %s::%s: /%s/ matches %d times' % (fn.file, fn.name, rx, n))
-            body = re.sub(rx, lambda m: X._pad(m.expand(rep), m.group(0)), body, count=1, flags=re.S)
+            if n == 0:
+                continue
+            body = re.sub(rx, lambda m: X._pad(m.expand(rep), m.group(0)), body, count=0 if every else 1, flags=re.S)
             fired.append('ABSTRACT /%s/ -> %s (%s)' % (rx[:60], rep[:60], why))
         body = X.apply_splices(body, fn.splices, fired, key)
     # ---- emit
@@ -333,7 +339,8 @@ def generate(unit, root, canary=False):
                     _emit_fn(gen, root, it, canary_false=True)
             else:
                 raise X.ExtractError('bad unit item %r' % (it,))
-    walk(unit.items)
+    with X.features(getattr(unit, 'cfg_features', ())):      # opt-in per unit (e.g. async-io); the default configuration otherwise
+        walk(unit.items)
     _emit(gen, '} // verus!')
     _emit(gen, 'fn main() {}')
     return gen
